@@ -867,7 +867,7 @@ func (p *Prog) condCallFacts(cond ssa.Value, val bool) relSet {
 	ips, ok := p.ipaths(callee)
 	delete(p.condBusy, callee)
 	if !ok {
-		return nil
+		return p.condCallFactsLocal(call, callee, idx, want)
 	}
 	psub := map[string]string{}
 	for i, pa := range callee.Params {
@@ -922,6 +922,57 @@ func (p *Prog) condCallFacts(cond ssa.Value, val bool) relSet {
 		out := relSet{}
 		for k := range facts {
 			out[renormRel(replaceAllKeys(keySubst(k, psub), binds))] = true
+		}
+		if res == nil {
+			res = out
+		} else {
+			res = res.intersect(out)
+		}
+	}
+	return res
+}
+
+// condCallFactsLocal: the same summary from the callee's own control-flow paths (no splicing of its
+// callees), used when the interprocedural paths are too many. Only literal results are understood: if
+// some path returns a computed value for the tested result, nothing is concluded.
+func (p *Prog) condCallFactsLocal(call *ssa.Call, callee *ssa.Function, idx int, want string) relSet {
+	paths, ok := p.enumPaths(callee, 1, 20000)
+	if !ok {
+		return nil
+	}
+	psub := map[string]string{}
+	for i, pa := range callee.Params {
+		psub[pa.Name()] = sk(call.Call.Args[i])
+	}
+	var res relSet
+	for _, pt := range paths {
+		ret, isRet := pt.endsInReturn()
+		if !isRet || idx >= len(ret.Results) {
+			continue
+		}
+		rv := resolveOnPath(pt, ret.Results[idx])
+		c, isConst := rv.(*ssa.Const)
+		if !isConst {
+			return nil
+		}
+		r := constKey(c)
+		switch want {
+		case "true", "false":
+			if r != want {
+				continue
+			}
+		case "nil":
+			if r != "nil" {
+				continue
+			}
+		case "!nil":
+			if r == "nil" {
+				continue
+			}
+		}
+		out := relSet{}
+		for k := range pt.relsResolved() {
+			out[renormRel(keySubst(k, psub))] = true
 		}
 		if res == nil {
 			res = out
